@@ -6,13 +6,17 @@ open PwVerif PwVerif.Tree PwVerif.Proto
 Line protocol of the ownership model.  Labels are written `=text` (so the empty label is `=`),
 "none" is `-`.
 
-    cfg f1 f2 f3 f4 f5 f6 f7           variant flags (0/1), see `Tree.Cfg`
+    cfg f1 f2 f3 f4 f5 f6 f7 f8 f9     variant flags (0/1), see `Tree.Cfg`
     decl <id> leaf|macro|wf <strict 0/1> <reserved labels…>
     new <c> <=label> <p|->             add <p> <c> <=label|-> <-|0|1>
     setattr <p> <=key> <c>             setparent <c> <p|->
     remove <p> <c>                     removelbl <p> <=label>
     replace <p> <old> <new>            setstart <p> <ids…>
     replacelbl <p> <=label> <new>
+    newfail <c> <=label> <p|->         constructor whose set-up raises after `Lexical.__init__`
+    newwith <c> <=label> <fails 0/1> <kids…>   `Workflow(label, *kids)`
+    replacecls <p> <=key> <new>        `p.key = NodeClass`: a fresh instance `new` replaces the child `key`
+    reload <c>                         `c.save(); c.load()` in place
     newmacro <m> <=label> <p|-> <u> <starting…>   constructor of a macro with its inner child `u`
     syncnode <c> <=label> <p|->  /  syncchildren <p> <=key> <id> …   re-synchronise from an observed state
     q <op…>                            same op, prints only when it does not return `ok`
@@ -51,7 +55,7 @@ def showOutcome : Outcome → String
   | .cyclicPathError => "CyclicPathError" | .attributeError => "AttributeError"
   | .parentMostError => "ParentMostError" | .keyError => "KeyError"
   | .duplicationError => "DuplicationError" | .recursionError => "RecursionError"
-  | .noMethod => "noMethod" | .unreachable => "unreachable"
+  | .noMethod => "noMethod" | .unreachable => "unreachable" | .setupError => "SetupError"
 
 def showStr (s : Str) : String := String.ofList s
 
@@ -117,11 +121,50 @@ def applyOp (s : St) (op : Op) : St × Outcome :=
 
 def step (s : St) (ws : List String) : St × List String :=
   match ws with
-  | ["cfg", a, b, c, d, e, f, g] =>
-    match parseFlag a, parseFlag b, parseFlag c, parseFlag d, parseFlag e, parseFlag f, parseFlag g with
-    | some a, some b, some c, some d, some e, some f, some g =>
-      ({ s with cfg := ⟨a, b, c, d, e, f, g, 64⟩ }, [])
-    | _, _, _, _, _, _, _ => (s, ["bad-op"])
+  | ["cfg", a, b, c, d, e, f, g, i, j] =>
+    match parseFlag a, parseFlag b, parseFlag c, parseFlag d, parseFlag e, parseFlag f, parseFlag g,
+        parseFlag i, parseFlag j with
+    | some a, some b, some c, some d, some e, some f, some g, some i, some j =>
+      ({ s with cfg := ⟨a, b, c, d, e, f, g, i, j, 64⟩ }, [])
+    | _, _, _, _, _, _, _, _, _ => (s, ["bad-op"])
+  | ["reload", c] =>
+    match c.toNat? with
+    | some c =>
+      if c ∈ s.alive then
+        let s' := { s with t := loadInPlace s.cfg s.t c }
+        (s', ["ok | " ++ obs s'])
+      else (s, ["bad-op"])
+    | none => (s, ["bad-op"])
+  | ["newfail", c, l, p] =>
+    match c.toNat?, parseLabel l, parseOptNat p with
+    | some c, some l, some p =>
+      let (t, r) := Tree.step s.cfg s.t (.newFail c l p)
+      -- the object is bound to no name: it stays visible exactly as far as a live composite lists it
+      let listed := s.alive.any fun q => decide (c ∈ vals (t.children q))
+      let s' := { s with t, alive := if listed then insertSorted s.alive c else s.alive }
+      (s', [showOutcome r ++ " | " ++ obs s'])
+    | _, _, _ => (s, ["bad-op"])
+  | "newwith" :: c :: l :: f :: kids =>
+    match c.toNat?, parseLabel l, parseFlag f, nats kids with
+    | some c, some l, some f, some kids =>
+      let (t, r) := Tree.step s.cfg s.t (.newWith c l kids f)
+      -- a workflow whose constructor raised is reachable only through the nodes that still name it
+      let named := s.alive.any fun k => decide (t.parent k = some c)
+      let s' := { s with t, alive := if r = .ok ∨ named then insertSorted s.alive c else s.alive }
+      (s', [showOutcome r ++ " | " ++ obs s'])
+    | _, _, _, _ => (s, ["bad-op"])
+  | ["replacecls", p, k, n] =>
+    match p.toNat?, parseLabel k, n.toNat? with
+    | some p, some k, some n =>
+      if n ∈ s.alive then (s, ["bad-op"]) else
+      -- `replacement(label=owned_node_instance.label)`, then `replace_child(key, instance)`
+      let (s1, r1) := applyOp s (.new n k none)
+      if r1 = .ok then
+        let (s2, r2) := applyOp s1 (.replaceLabel p k n)
+        let s3 := if r2 = .ok then s2 else { s2 with alive := s2.alive.filter (· != n) }
+        (s3, [showOutcome r2 ++ " | " ++ obs s3])
+      else (s, [showOutcome r1 ++ " | " ++ obs s])
+    | _, _, _ => (s, ["bad-op"])
   | "decl" :: id :: k :: st :: res =>
     match id.toNat?, parseKind k, parseFlag st, res.mapM parseLabel with
     | some id, some k, some st, some res =>
